@@ -3,7 +3,7 @@ CONSTANTS
   Dicts = {1, 2}
   Bug = "none"
   PrefixOf <- MCPrefixOf
-  MaxDepth = 5
+  MaxDepth = 4
   Keys <- K_mix
   Ops <- O_all
 INVARIANT TypeOK
